@@ -1,5 +1,7 @@
 package enode
 
+import "net/netip"
+
 // Harnesses for C46 (XOR metric), package p2p/enode.
 
 // ZZNodeWithID builds a node that has only an identity (overlay helper for the
@@ -87,4 +89,12 @@ func zzH_C46_logdist() {
 		zzReach("same")
 	}
 	zzObserve("logdist", int64(got))
+}
+
+// ZZNodeAt builds a node with an identity, an IPv4 endpoint and a record sequence number
+// (overlay helper for the harnesses in p2p/discover).
+func ZZNodeAt(id ID, ip [4]byte, udp uint16, seq uint64) *Node {
+	n := &Node{id: id, ip: netip.AddrFrom4(ip), udp: udp}
+	n.r.SetSeq(seq)
+	return n
 }
